@@ -121,8 +121,8 @@ theorem safe_out (o : Nat → Nat) (T : List Nat) :
     have ha := iha d k h.1
     rcases ha with ha | ⟨hd, ha | ha⟩
     · simp only [exec, ha]; exact ihb d _ h.2
-    · simp only [exec, ha]; exact Or.inr ⟨hd, Or.inl ha⟩
-    · simp only [exec, ha]; exact Or.inr ⟨hd, Or.inr ha⟩
+    · simp only [exec, ha]; exact Or.inr ⟨hd, Or.inl rfl⟩
+    · simp only [exec, ha]; exact Or.inr ⟨hd, Or.inr rfl⟩
   | ite a b iha ihb =>
     intro d k h
     simp only [safe, Bool.and_eq_true] at h
@@ -344,7 +344,12 @@ theorem safe_plug (T : List Nat) (c : Ctx) {x y : Stmt} (h : ∀ d, safe T d x =
     ∀ d, safe T d (plug c x) = safe T d (plug c y) := by
   induction c with
   | hole => exact h
-  | _ => intro d; simp_all [plug, safe]
+  | seqL c b ih => intro d; simp only [plug, safe, ih d]
+  | seqR a c ih => intro d; simp only [plug, safe, ih d]
+  | iteT c b ih => intro d; simp only [plug, safe, ih d]
+  | iteE a c ih => intro d; simp only [plug, safe, ih d]
+  | loopB c ih => intro d; simp only [plug, safe, ih true]
+  | regionB r c ih => intro d; simp only [plug, safe, ih d]
 
 theorem targets_plug (c : Ctx) {x y : Stmt} (h : targets x = targets y) :
     targets (plug c x) = targets (plug c y) := by
@@ -487,7 +492,8 @@ theorem uniqueNames_nodup :
       intro hmem
       have := uniqueNames_ge rest _ m b _ (List.mem_filter.mp hmem).1
       rw [Table.get_set] at this
-      simp at this
+      simp only [if_true] at this
+      exact Nat.not_succ_le_self _ this
 
 /-! ## The property -/
 
@@ -586,16 +592,16 @@ def exitLoopBody : List Stmt := [.ite .exit .skip, .basic false]
 /-- region around a whole loop that contains EXIT and CYCLE: accepted, and reachable. -/
 example : applyAt .hole [] [.loop (seqs (exitLoopBody ++ [.ite .cycle .skip]))] [.ret] rP =
     .ok (seqs [.region rP (seqs [.loop (seqs (exitLoopBody ++ [.ite .cycle .skip]))]), .ret]) := by
-  decide
+  rfl
 
 example : Reachable (seqs [.region rP (seqs [.loop (seqs exitLoopBody)]), .ret]) :=
   Reachable.step (c := .hole) (pre := []) (mid := [.loop (seqs exitLoopBody)]) (post := [.ret])
-    (Reachable.init (by decide)) (by decide)
+    (Reachable.init (by decide)) (by rfl)
 
 /-- the loop body with the EXIT is refused by the fixed rule, accepted by the pinned rule. -/
-example : applyAt (.seqL (.loopB .hole) .skip) [] exitLoopBody [] rP = .error .transfer := by decide
+example : applyAt (.seqL (.loopB .hole) .skip) [] exitLoopBody [] rP = .error .transfer := by rfl
 example : applyAtPinned (.seqL (.loopB .hole) .skip) [] exitLoopBody [] rP =
-    .ok (seqs [.loop (seqs [.region rP (seqs exitLoopBody)])]) := by decide
+    .ok (seqs [.loop (seqs [.region rP (seqs exitLoopBody)])]) := by rfl
 /-- RETURN, GOTO and a GOTO target in the region are refused; ExtractTrans refuses CodeBlocks. -/
 example : validate .profile [] [.ite .ret .skip] = .transfer := by decide
 example : validate .nanTest [3] [.basic false, .label 3] = .transfer := by decide
@@ -623,7 +629,7 @@ def exitWitness : Stmt := seqs [.loop (seqs [.region rP (seqs exitLoopBody)])]
 
 theorem exitWitness_reachable_pinned : ReachablePinned exitWitness :=
   ReachablePinned.step (c := .seqL (.loopB .hole) .skip) (pre := []) (mid := exitLoopBody) (post := [])
-    (ReachablePinned.init (by decide)) (by decide)
+    (ReachablePinned.init (by decide)) (by rfl)
 
 /-- one iteration, condition true: `PreStart`, `EXIT` — `PostEnd` is never called. -/
 theorem exitWitness_trace : (run (fun _ => 1) exitWitness).ev = [.start 0] := by decide
@@ -639,7 +645,7 @@ theorem exit_in_region_counterexample : ¬ C28_statement_pinned := by
 
 /-- The fixed rule refuses that placement. -/
 theorem exit_in_region_refused_fixed :
-    applyAt (.seqL (.loopB .hole) .skip) [] exitLoopBody [] rP = .error .transfer := by decide
+    applyAt (.seqL (.loopB .hole) .skip) [] exitLoopBody [] rP = .error .transfer := by rfl
 
 /-- Pinned `ExtractTrans` (`excluded_node_types` without `Return`) accepts a region containing
 RETURN; the fixed rule refuses it. -/
